@@ -343,32 +343,107 @@ pub fn cpu_now() -> f64 {
 }
 
 
-/// A private copy of an input in a heap block of exactly the needed size, starting `off` bytes into
-/// the block. Nothing readable follows the last byte (under ASan / valgrind / Miri the very next
-/// byte is a red zone, so an over-read of even one byte is reported), and the start address is
-/// misaligned by `off` (word-sized loads through pointer casts trip the alignment checks of the
-/// debug-assertion build and of Miri). Natively an over-read lands in allocator slack and shows up
-/// only through its effect on the result.
+/// A private copy of an input placed so that nothing readable follows its last byte.
+///
+/// * Heap form (all lanes): a heap block of exactly the needed size, the copy starting `off` bytes
+///   into it. Under ASan / valgrind / Miri the very next byte is a red zone, so an over-read of even
+///   one byte is reported; the start address is misaligned by `off`, so word loads through pointer
+///   casts trip the alignment checks of the debug-assertion build and of Miri.
+/// * Fenced form (guard mode, i.e. the native lanes; three inputs out of four, up to 1 MiB): the
+///   copy ends exactly at a page boundary and the next page is `PROT_NONE` (one of four per-thread
+///   regions, mapped once). An over-read of one byte is a SIGSEGV, which the supervisor attributes
+///   to the running case. Aligned word loads of correct code never cross the boundary.
 pub struct Tight {
     buf: Box<[u8]>,
     off: usize,
+    fenced: Option<(usize, *const u8, usize)>, // region index, start, len
+}
+
+const REGION_BYTES: usize = 1 << 20;
+const PAGE: usize = 4096;
+const NREGIONS: usize = 4;
+
+#[cfg(not(miri))]
+extern "C" {
+    fn mmap(addr: *mut u8, len: usize, prot: i32, flags: i32, fd: i32, off: i64) -> *mut u8;
+    fn mprotect(addr: *mut u8, len: usize, prot: i32) -> i32;
+}
+
+thread_local! {
+    // (base of the usable megabyte, busy flag) per region; base == 0 means "not mapped / mapping failed"
+    static REGIONS: RefCell<[(usize, bool); NREGIONS]> = RefCell::new([(0, false); NREGIONS]);
+}
+
+#[cfg(not(miri))]
+fn region_acquire() -> Option<(usize, usize)> {
+    REGIONS.with(|r| {
+        let mut r = r.borrow_mut();
+        for i in 0..NREGIONS {
+            if r[i].1 {
+                continue;
+            }
+            if r[i].0 == 0 {
+                // PROT_READ|PROT_WRITE = 3, MAP_PRIVATE|MAP_ANONYMOUS = 0x22 (Linux)
+                let p = unsafe { mmap(std::ptr::null_mut(), REGION_BYTES + PAGE, 3, 0x22, -1, 0) };
+                if p.is_null() || p as isize == -1 {
+                    r[i].0 = usize::MAX;
+                } else if unsafe { mprotect(p.add(REGION_BYTES), PAGE, 0) } != 0 {
+                    r[i].0 = usize::MAX;
+                } else {
+                    r[i].0 = p as usize;
+                }
+            }
+            if r[i].0 != usize::MAX {
+                r[i].1 = true;
+                return Some((i, r[i].0));
+            }
+        }
+        None
+    })
 }
 
 impl Tight {
     pub fn new(bytes: &[u8], salt: u64) -> Tight {
+        let pick = salt ^ (salt >> 17) ^ bytes.len() as u64;
+        #[cfg(not(miri))]
+        {
+            if guard_on() && pick % 4 != 0 && bytes.len() <= REGION_BYTES {
+                if let Some((idx, base)) = region_acquire() {
+                    let start = (base + REGION_BYTES - bytes.len()) as *mut u8;
+                    unsafe {
+                        std::ptr::copy_nonoverlapping(bytes.as_ptr(), start, bytes.len());
+                    }
+                    return Tight { buf: Vec::new().into_boxed_slice(), off: 0, fenced: Some((idx, start as *const u8, bytes.len())) };
+                }
+            }
+        }
         const OFFS: [usize; 8] = [0, 1, 2, 3, 0, 5, 4, 7];
-        let off = OFFS[((salt ^ (salt >> 17) ^ bytes.len() as u64) % 8) as usize];
+        let off = OFFS[((pick >> 2) % 8) as usize];
         let mut v = Vec::with_capacity(off + bytes.len());
         v.resize(off, 0xC5);
         v.extend_from_slice(bytes);
-        Tight { buf: v.into_boxed_slice(), off }
+        Tight { buf: v.into_boxed_slice(), off, fenced: None }
+    }
+    pub fn is_fenced(&self) -> bool {
+        self.fenced.is_some()
+    }
+}
+
+impl Drop for Tight {
+    fn drop(&mut self) {
+        if let Some((idx, _, _)) = self.fenced {
+            REGIONS.with(|r| r.borrow_mut()[idx].1 = false);
+        }
     }
 }
 
 impl std::ops::Deref for Tight {
     type Target = [u8];
     fn deref(&self) -> &[u8] {
-        &self.buf[self.off..]
+        match self.fenced {
+            Some((_, p, n)) => unsafe { std::slice::from_raw_parts(p, n) },
+            None => &self.buf[self.off..],
+        }
     }
 }
 
